@@ -34,6 +34,7 @@ import (
 //   procs     1 | 2 | 4 | 8            (1 = DisableParallelism, else GOMAXPROCS(procs/2))
 //   failpat   string over {0,1}: send attempt i of the main output fails iff failpat[i % len] == '1'
 //   chain     comma list: v<i> (scripted verdict action reading field "v", char i) | j<i> (real join on field m<i>)
+//             | c<i> (scripted collapse-only action: ActionCollapse when char i of "v" is 'C', discards the time-out)
 //             | p<i> (real split on field "arr": children are spawned, the parent breaks); suffix ":c" = the action
 //             has the match condition k<position> = "y" (a busy action still gets every event of its stream)
 //   event spec: JSON object text with "stream", "v", "m0", "m1" … fields
@@ -187,6 +188,33 @@ func (a *c01VerdictAction) Do(event *pipeline.Event) pipeline.ActionResult {
 	default:
 		return pipeline.ActionPass
 	}
+}
+
+// ---- scripted collapse-only action ---------------------------------------------------------
+
+type c01CollapseAction struct {
+	idx    int
+	jitter *c01Jitter
+}
+
+func (a *c01CollapseAction) Start(config pipeline.AnyConfig, _ *pipeline.ActionPluginParams) {
+	a.idx = config.(*c01VerdictConfig).Idx
+}
+func (a *c01CollapseAction) Stop() {}
+func (a *c01CollapseAction) Do(event *pipeline.Event) pipeline.ActionResult {
+	a.jitter.pause()
+	if event.IsTimeoutKind() {
+		return pipeline.ActionDiscard
+	}
+	n := event.Root.Dig("v")
+	if n == nil {
+		return pipeline.ActionPass
+	}
+	v := n.AsString()
+	if a.idx < len(v) && v[a.idx] == 'C' {
+		return pipeline.ActionCollapse
+	}
+	return pipeline.ActionPass
 }
 
 // ---- jitter: tiny PRNG-driven pauses that diversify interleavings -------------------------
@@ -451,6 +479,22 @@ func execC01(t *hx.Toks) string {
 					MatchMode:       pipeline.MatchModeAnd,
 					MatchConditions: conds,
 				})
+			case 'c':
+				// scripted collapse-only action (like k8s multi-line / parse_es): ActionCollapse when char i of
+				// field "v" is 'C', ActionDiscard for the time-out event, ActionPass otherwise
+				i := idx
+				p.AddAction(&pipeline.ActionPluginStaticInfo{
+					PluginStaticInfo: &pipeline.PluginStaticInfo{
+						Type: "verif-collapse",
+						Factory: func() (pipeline.AnyPlugin, pipeline.AnyConfig) {
+							return &c01CollapseAction{jitter: jit}, &c01VerdictConfig{Idx: i}
+						},
+						Config: &c01VerdictConfig{Idx: i},
+					},
+					MetricName:      "verif_c" + a[1:],
+					MatchMode:       pipeline.MatchModeAnd,
+					MatchConditions: conds,
+				})
 			case 'j':
 				jc := &join.Config{
 					Field:    cfg.FieldSelector("m" + a[1:]),
@@ -553,8 +597,19 @@ func execC01(t *hx.Toks) string {
 					done++
 				}
 			}
+			// … and no processor is still on a stream: an action may be busy without holding an event
+			// (a collapse-only action waits for the stream's time-out), and a processor that never lets
+			// go of a silent stream is a wedge (C04)
+			attached := 0
+			for _, tok := range tr.toks {
+				if strings.HasPrefix(tok, "att:") {
+					attached++
+				} else if strings.HasPrefix(tok, "lv:") {
+					attached--
+				}
+			}
 			tr.mu.Unlock()
-			if done >= puts {
+			if done >= puts && attached <= 0 {
 				state = "idle"
 			}
 		default:
@@ -698,6 +753,17 @@ func genC01Case(rng *hx.Rng, allowDQ bool) *c01Gen {
 	if join2At > lastJoin {
 		lastJoin = join2At
 	}
+	// a collapse-only action in a fifth of the chains (busy without holding an event; let go by the time-out)
+	colAt := -1
+	if nact > 0 && rng.Chance(1, 5) {
+		colAt = rng.Intn(nact)
+		if colAt == joinAt || colAt == join2At || colAt == splitAt {
+			colAt = -1
+		}
+	}
+	if colAt > lastJoin {
+		lastJoin = colAt
+	}
 	for i := 0; i < nact; i++ {
 		switch i {
 		case join2At:
@@ -706,6 +772,8 @@ func genC01Case(rng *hx.Rng, allowDQ bool) *c01Gen {
 			chain = append(chain, "j0")
 		case splitAt:
 			chain = append(chain, "p"+strconv.Itoa(i))
+		case colAt:
+			chain = append(chain, "c"+strconv.Itoa(i))
 		default:
 			chain = append(chain, "v"+strconv.Itoa(i))
 		}
@@ -727,6 +795,11 @@ func genC01Case(rng *hx.Rng, allowDQ bool) *c01Gen {
 		v := make([]byte, nact)
 		for k := range v {
 			switch {
+			case k == colAt:
+				v[k] = 'P'
+				if rng.Chance(1, 3) {
+					v[k] = 'C'
+				}
 			case rng.Chance(1, 8):
 				v[k] = 'D'
 			case rng.Chance(1, 16) && k > lastJoin:
